@@ -133,8 +133,10 @@ def _apalache(ctx, tmp):
     out = []
     for name, args, want_ok in jobs:
         t0 = time.time()
+        # Apalache's SANY front end unpacks modules under the JVM temp directory: keep that inside our scratch dir
+        env = dict(os.environ, TMPDIR=tmp, JVM_ARGS=(os.environ.get("JVM_ARGS", "") + f" -Djava.io.tmpdir={tmp}").strip())
         p = subprocess.run(["apalache-mc", "check", *args.split(), f"--out-dir={tmp}/apa", spec], capture_output=True, text=True,
-                           timeout=900, cwd=os.path.dirname(spec))
+                           timeout=900, cwd=os.path.dirname(spec), env=env)
         ok = "The outcome is: NoError" in p.stdout
         err = "The outcome is: Error" in p.stdout
         if not ok and not err:
